@@ -527,6 +527,11 @@ def l3d_case(args):
        isoform, group 'cellX' a single read over the shared exons (weight 1/3 per isoform under with_ambiguous, column total 0.99 after
        rounding): every group column of a grouped TPM table is its counts column rescaled to 10^6"""
     strategy, scratch = args
+    # a pair (transcript strategy, gene strategy): the two levels are counted under different strategies, and one more read (cellX) skips
+    # exon B of T1 - inconsistent, counted only where the strategy of that level admits inconsistent reads
+    pair = strategy if isinstance(strategy, tuple) else None
+    ts, gs = pair if pair else (strategy, strategy)
+    strategy = ts
     from vlib import worlds as W, syn, run
     w = W.base_world(1, 9000)
     A, B, C = [1001, 1200], [1601, 1800], [2201, 2400]
@@ -540,18 +545,20 @@ def l3d_case(args):
     w["reads"].append(W.read_of("shared1_cellX", "chr1", [A, B, C], polya=False))
     w["reads"].append(W.read_of("shared2_bulk", "chr1", [[A[0] + 2, A[1]], B, C], polya=False))
     w["reads"].append(W.read_of("shared3_cellY", "chr1", [[A[0] + 4, A[1]], B, C], polya=False))
-    d = os.path.join(scratch, "c09d_%s" % strategy)
+    if pair:
+        w["reads"].append(W.read_of("incons1_cellX", "chr1", [A, C, tails["T1"]]))
+    d = os.path.join(scratch, "c09d_%s_%s" % (ts, gs))
     shutil.rmtree(d, ignore_errors=True)
     paths = syn.materialise(w, d)
     out = os.path.join(d, "out")
-    rc = run.run_isoquant(run.base_argv(paths, out, extra=["--read_group", "read_id:_", "--transcript_quantification", strategy,
-                                                          "--gene_quantification", strategy]), paths["home"], os.path.join(d, "o.txt"))
+    rc = run.run_isoquant(run.base_argv(paths, out, extra=["--read_group", "read_id:_", "--transcript_quantification", ts,
+                                                          "--gene_quantification", gs]), paths["home"], os.path.join(d, "o.txt"))
     errs = []
     if rc != 0:
         errs.append(("run-failed", "exit %d: %s" % (rc, open(os.path.join(d, "o.txt")).read()[-300:])))
         shutil.rmtree(d, ignore_errors=True)
-        return strategy, errs
-    for level in ("gene", "transcript", "transcript_model"):
+        return (pair or strategy), errs
+    for level in (("gene", "transcript", "transcript_model") if not pair else ("gene", "transcript")):
         try:
             hc, rc_ = run.parse_counts(run.find(out, "OUT", ".%s_grouped_counts.tsv" % level))
             ht, rt = run.parse_counts(run.find(out, "OUT", ".%s_grouped_tpm.tsv" % level))
@@ -564,6 +571,12 @@ def l3d_case(args):
         share = 0.33 if strategy in ("with_ambiguous", "all") else 0.0
         exp = {"gene": {("G1", "bulk"): 10.0, ("G1", "cellX"): 1.0, ("G1", "cellY"): 1.0}}.get(level) or \
             dict([((t, "bulk"), 3.0 + share) for t in tails] + [((t, g_), share) for t in tails for g_ in ("cellX", "cellY") if share])
+        if pair:
+            inc_ok = lambda st: st in ("all", "unique_inconsistent")
+            if level == "gene" and inc_ok(gs):
+                exp[("G1", "cellX")] = 2.0
+            if level == "transcript" and inc_ok(ts):
+                exp[("T1", "cellX")] = exp.get(("T1", "cellX"), 0.0) + 1.0
         got = {}
         for f, v in rc_.items():
             if f.startswith("__"):
@@ -585,7 +598,7 @@ def l3d_case(args):
                 errs.append(("grouped-tpm:%s" % level, "%s grouped TPM, group %s: counts %s (total %.2f), TPM %s (sum %.1f)" %
                              (level, g, sorted(col.items()), tot, sorted(tpm.items()), sum(tpm.values()))))
     shutil.rmtree(d, ignore_errors=True)
-    return strategy, errs
+    return (pair or strategy), errs
 
 
 def run(ctx):
@@ -657,7 +670,7 @@ def run(ctx):
         for k, msg in errs:
             ctx.violation("l3b:%s" % k, "gene strategy %s, transcript strategy %s: %s" % (key[0], key[1], msg), {"l3b": list(key)})
     ctx.note("partition oracle on the all-types world: %d strategy pairs" % len(sp))
-    for key, errs in core.pmap(l3d_case, [(st, ctx.scratch) for st in ("with_ambiguous", "all", "unique_only")]):
+    for key, errs in core.pmap(l3d_case, [(st, ctx.scratch) for st in ("with_ambiguous", "all", "unique_only", ("unique_only", "all"), ("all", "unique_only"))]):
         nl3 += 1
         for k, msg in errs:
             ctx.violation("l3d:%s" % k, "strategy %s: %s" % (key, msg), {"l3d": key})
